@@ -79,6 +79,11 @@ def newCoin (denom : String) (amount : Int) : Option Coin := if amount < 0 then 
 /-- `sdk.NewCoins(c)` of one coin: zero coins are dropped -/
 def newCoins1 (c : Coin) : List Coin := if c.Amount = 0 then [] else [c]
 
+/-- `sdk.Coins.Equal`: same length and, after sorting both by denomination, equal coin by coin -/
+def coinsEqual (a b : List Coin) : Bool :=
+  decide (a.length = b.length) &&
+    ((a.mergeSort (fun x y => decide (x.Denom ≤ y.Denom))) == (b.mergeSort (fun x y => decide (x.Denom ≤ y.Denom))))
+
 /-- `sdk.BigEndianToUint64` (0 for an empty slice) and `sdk.Uint64ToBigEndian` -/
 def beToU64 (bz : List Nat) : Nat := if bz.isEmpty then 0 else (bz.foldl (fun acc b => acc * 256 + b % 256) 0) % 2^64
 def u64ToBe (n : Nat) : List Nat := (List.range 8).map fun i => (n / 256^(7 - i)) % 256
